@@ -1,15 +1,62 @@
-(** Properties/C07.v — run-time totality (first theorems; see DESIGN.md for the partial claim). *)
-From DarlingModel Require Import Conv.Routing Conv.Scalars Conv.ScalarProofs.
+(** Properties/C07.v — Parsing is total at run time: every input yields Ok or Err, never a panic.
+    Statements only.  PARTIAL (see DESIGN.md): stack exhaustion at extreme nesting and the
+    arithmetic-overflow checks of debug builds are run-time behaviour the model cannot exhibit. *)
+From DarlingModel Require Import Conv.Routing Conv.Scalars Conv.ScalarProofs Run.Recv Run.LevelProofs Run.TotalProofs Run.LeafTotal.
+Local Open Scope list_scope.
 
 (** Every built-in integer conversion returns a value or an error on every meta item,
     including numbers beyond every width. *)
 Theorem C07_integers_total :
   forall (t : ity) (m : nested), is_meta m = true -> is_panic (from_meta (int_fm t) m) = false.
 Proof. exact (fun t m M => proj1 (int_rejections t m M)). Qed.
-Print Assumptions C07_integers_total.
 
 (** For any implementer whose hooks do not panic, the default dispatchers do not panic. *)
 Theorem C07_dispatch_total :
   forall (F : fm) (m : nested), hooks_total F -> is_meta m = true -> is_panic (default_from_meta F m) = false.
 Proof. exact default_from_meta_total. Qed.
+
+(** One level of a derived struct parser, for ANY field list, converters and callables: if the
+    converters, the flatten member, the container default and the user's default functions
+    return a value or an error, so does the level.  In particular the initialiser's
+    `expect("Uninitialized fields without defaults were already checked")` is unreachable: after
+    the error check a slot is empty only if its field has a default. *)
+Theorem C07_struct_level_total :
+  forall sugg sim interp_with interp_fn fields convs auk items cdef_of locate,
+    (forall i f it loc, is_meta it = true -> panic_free (extract interp_with interp_fn convs i f it loc)) ->
+    (forall i l, panic_free (from_list (conv_of convs i) l)) ->
+    (forall g, panic_free (interp_fn g VUnit)) ->
+    (forall f, In f (finfos fields) -> fi_flatten f = true -> fi_multiple f = false) ->
+    (match cdef_of tt with Ok cd => inherit_ok fields cd | Err _ => True | Panic _ => False end) ->
+    panic_free (parse_fields sugg sim interp_with interp_fn fields convs auk (state0 fields) items cdef_of locate).
+Proof. exact parse_fields_total. Qed.
+
+(** Every derived receiver type - structs, newtypes, unit structs, enums, Option / Box /
+    darling::Result wrappers, nested to ANY depth - returns a value or an error on EVERY meta
+    item and EVERY item list, provided the library leaf targets and the user's callables do and
+    the declaration is one the derives accept ([wf_ty]: flatten members are single-valued,
+    inherited defaults exist, newtype variants have their field). *)
+Theorem C07_derived_receivers_total :
+  forall pf reparse reparse_arr reparse_preds sugg sim interp_with interp_fn,
+    (forall tg, total_fm (leaf_fm pf reparse reparse_arr reparse_preds tg)) ->
+    (forall w it, is_panic (interp_with w it) = false) ->
+    (forall g v, is_panic (interp_fn g v) = false) ->
+    forall t, wf_ty interp_fn t ->
+      (forall m, is_meta m = true ->
+         is_panic (from_meta (impl_of pf reparse reparse_arr reparse_preds sugg sim interp_with interp_fn t) m) = false)
+      /\ (forall l, is_panic (from_list (impl_of pf reparse reparse_arr reparse_preds sugg sim interp_with interp_fn t) l) = false).
+Proof. exact impl_total. Qed.
+
+(** The leaf assumption discharged for the plain library targets (unit, bool, AtomicBool, char,
+    String, PathBuf, all 24 integer types, f32 / f64 for any float oracle, Flag, and Option /
+    smart pointers / darling::Result / keyed maps over those). *)
+Theorem C07_plain_targets_total :
+  forall pf reparse reparse_arr reparse_preds t, plain t = true ->
+    (forall m, is_meta m = true -> is_panic (from_meta (fm_of pf reparse reparse_arr reparse_preds t) m) = false)
+    /\ (forall l, is_panic (from_list (fm_of pf reparse reparse_arr reparse_preds t) l) = false).
+Proof. exact plain_total. Qed.
+
+Print Assumptions C07_integers_total.
 Print Assumptions C07_dispatch_total.
+Print Assumptions C07_struct_level_total.
+Print Assumptions C07_derived_receivers_total.
+Print Assumptions C07_plain_targets_total.
